@@ -137,6 +137,13 @@ class RecInterp(itereval.IterInterp):
                     return self.apply(args[1], [recv.v]) if recv.some else args[0]
                 if m == "unwrap_or":
                     return recv.v if recv.some else args[0]
+            # hand the call on with the receiver already evaluated (evaluating it a second time would repeat its effects)
+            scope = env.child()
+            scope.bind("__recv", recv)
+            e2 = dict(e)
+            e2["receiver"] = {"t": "PathExpr", "qself": None, "sp": e["receiver"].get("sp"),
+                              "path": {"t": "Path", "global": False, "name": "__recv", "s": "__recv", "sp": e["receiver"].get("sp"), "segs": [{"id": "__recv", "args": None}]}}
+            return super().eval(e2, scope)
         return super().eval(e, env)
 
     def call_method(self, fn, args):
